@@ -104,8 +104,8 @@ def check_matches(res, case, engine, lcres, compact):
     ok = True
     exact_state = True
     for call, ms in zip(case["calls"], lcres["calls"]):
-        if call["restart"] and compact:
-            used = set()            # the compact variant really starts again (the matrix is positivized)
+        if call["restart"]:
+            used = set()            # a restarted search really starts again (the matrix is positivized)
             exact_state = True
         if call["minlen"] > 1:
             exact_state = False     # candidates shorter than minlen are negated without being reported
@@ -221,7 +221,7 @@ def run(ctx):
             masked = lcres.get("masked")
             wp = [[None if (v is None or (masked and masked[i][j])) else rat(v) for j, v in enumerate(row)]
                   for i, row in enumerate(start)]
-            lc_ops.append({"op": "lc", "wp": wp, "resetPositivizes": compact, "cRule": compact, "pen": rat(0.0),
+            lc_ops.append({"op": "lc", "wp": wp, "resetPositivizes": True, "cRule": compact, "pen": rat(0.0),
                            "calls": [{"k": cl["k"], "minlen": cl["minlen"], "restart": cl["restart"]} if cl["k"] is not None
                                      else {"minlen": cl["minlen"], "restart": cl["restart"]} for cl in c["calls"]]})
             lc_meta.append((c, engine, lcres))
